@@ -45,6 +45,7 @@ type ApiIn struct {
 	Ops    []AOp  `json:"ops"`
 	Reg    RegOpt `json:"reg"`
 	Path   []Lvl  `json:"path,omitempty"` // when present: the callers (Depth = len(Path)); otherwise the alternating chain
+	Fill   int    `json:"fill,omitempty"` // values held at top level below the path
 }
 
 func z(i int) string { return lib.CoqZ(int64(i)) }
@@ -404,7 +405,7 @@ func doMidCall(L *lua.LState, e *cellEnc, o AOp, base int) *midCall {
 
 func (in ApiIn) run(L *lua.LState, leaf func(L *lua.LState) int) (bool, error) {
 	if len(in.Path) > 0 {
-		return chainPath(L, in.Path, in.Init, leaf)
+		return chainPathFill(L, in.Path, in.Fill, in.Init, leaf)
 	}
 	return chain(L, in.Depth, in.Locals, in.Init, leaf)
 }
@@ -579,6 +580,9 @@ func genLocals(r *lib.Rand, reg RegOpt) []int {
 
 func genApi(r *lib.Rand, depth int, usePath bool) ApiIn {
 	reg := genRegOpt(r)
+	if usePath && r.Chance(15) {
+		reg = RegOpt{Size: 128, Max: 2048, Grow: r.Range(1, 9)}
+	}
 	in := ApiIn{Kind: "api", Depth: depth, Reg: reg, Locals: genLocals(r, reg)}
 	n0 := r.Intn(5)
 	if usePath && depth > 0 {
@@ -590,6 +594,7 @@ func genApi(r *lib.Rand, depth int, usePath bool) ApiIn {
 			copy(in.Path[depth-2:], sp)
 		}
 		fitPath(in.Path, reg)
+		in.Fill = genFill(r, reg)
 	}
 	tag := 1
 	nv := func() int {
@@ -655,7 +660,7 @@ func genApi(r *lib.Rand, depth int, usePath bool) ApiIn {
 			}
 			ncalls++
 			o := AOp{K: "call", C: []string{"go", "go", "lua", "luav", "luatail", "luafix", "luapre", "reenter", "nonfn"}[r.Intn(9)], Via: []string{"cbp", "cbpp", "cbpp", "call", "pcall"}[r.Intn(5)],
-				N: r.Intn(4), J: r.Intn(4), P: r.Intn(4), I: r.Range(-1, 4), F: r.Chance(35)}
+				N: r.Intn(4), J: r.Intn(5), P: r.Intn(4), I: r.Range(-1, 4), F: r.Chance(35)}
 			if o.C == "nonfn" {
 				o.P, o.F = 0, false
 			}
@@ -768,6 +773,7 @@ type CallIn struct {
 	Reg      RegOpt `json:"reg"`
 	Path     []Lvl  `json:"path,omitempty"`    // when present: the callers (Depth = len(Path)); otherwise the alternating chain
 	Handler  string `json:"handler,omitempty"` // error handler given to PCall / CallByParam{Protect}: go | lua | failing
+	Fill     int    `json:"fill,omitempty"`    // values held at top level below the path
 }
 
 func luaCallee(L *lua.LState, in CallIn) *lua.LFunction {
@@ -929,7 +935,7 @@ func runCall(w *lib.Writer, in CallIn, class string) {
 	var ok bool
 	var cerr error
 	if len(in.Path) > 0 {
-		ok, cerr = chainPath(L, in.Path, in.Init, leaf)
+		ok, cerr = chainPathFill(L, in.Path, in.Fill, in.Init, leaf)
 	} else {
 		ok, cerr = chain(L, in.Depth, in.Locals, in.Init, leaf)
 	}
@@ -1018,6 +1024,9 @@ func cellsOf(vs []int) []string {
 
 func genCall(r *lib.Rand, depth int, usePath bool) CallIn {
 	reg := genRegOpt(r)
+	if usePath && r.Chance(25) {
+		reg = RegOpt{Size: 128, Max: 2048, Grow: r.Range(1, 9)}
+	}
 	in := CallIn{Kind: "call", Depth: depth, Reg: reg, Locals: genLocals(r, reg)}
 	if usePath && depth > 0 {
 		in.Path = genPath(r, depth)
@@ -1027,6 +1036,7 @@ func genCall(r *lib.Rand, depth int, usePath bool) CallIn {
 			copy(in.Path[depth-2:], sp)
 		}
 		fitPath(in.Path, reg)
+		in.Fill = genFill(r, reg)
 	}
 	in.Via = []string{"callbyparam", "callbyparam", "callbyparam", "call", "pcall", "gpcall"}[r.Intn(6)]
 	in.Callee = []string{"go", "go", "lua", "lua", "luavararg", "nonfunction", "callable-table", "callable-table", "callable-userdata"}[r.Intn(9)]
@@ -1034,15 +1044,15 @@ func genCall(r *lib.Rand, depth int, usePath bool) CallIn {
 		in.Callee = []string{"luatail", "luafix", "luapre", "reenter"}[r.Intn(4)]
 	}
 	in.NArgs = r.Intn(5)
-	in.Junk = r.Intn(4)
+	in.Junk = r.Intn(5)
 	in.Produced = r.Intn(5)
 	in.NRet = r.Range(-1, 5)
 	in.Protect = r.Chance(70)
 	in.Fails = r.Chance(20)
-	if usePath {
-		if r.Chance(40) {
-			in.Handler = []string{"go", "lua", "failing"}[r.Intn(3)]
-		}
+	if usePath && r.Chance(40) {
+		in.Handler = []string{"go", "lua", "failing"}[r.Intn(3)]
+	}
+	{
 		if reg.Max > 0 && r.Chance(20) {
 			// many results / a large NRet on a registry that has to grow while the results are put in place
 			if r.Bool() {
